@@ -170,18 +170,23 @@ type Elem struct {
 	// UID, if non-zero, is the uid of the element instead of the table value (several
 	// elements of one document then share a uid under different user names)
 	UID int64 `json:",omitempty"`
+	// Same, if 1, makes every field of one class draw the same table entry: committed equals
+	// timestamp, uid equals changeset equals version, lat equals lon, user equals every tag value
+	// (an encoder that leaves out a field because it equals another one loses it)
+	Same int `json:",omitempty"`
 }
 
 func (e Elem) has(bit uint) bool { return e.Mask&(1<<bit) != 0 }
 func (e Elem) s(k int) sv {
+	k *= 1 - e.Same
 	if e.Salt == saltRange && k%2 == 0 {
 		return longSV
 	}
 	return strTab[(e.Salt+k)%len(strTab)]
 }
-func (e Elem) f(k int) fv    { return fltTab[(e.Salt+k)%len(fltTab)] }
-func (e Elem) t(k int) tv    { return timTab[(e.Salt+k)%len(timTab)] }
-func (e Elem) n(k int) int64 { return numTab[(e.Salt+k)%len(numTab)] }
+func (e Elem) f(k int) fv    { return fltTab[(e.Salt+k*(1-e.Same))%len(fltTab)] }
+func (e Elem) t(k int) tv    { return timTab[(e.Salt+k*(1-e.Same))%len(timTab)] }
+func (e Elem) n(k int) int64 { return numTab[(e.Salt+k*(1-e.Same))%len(numTab)] }
 
 // z: documents with Zero == 1 write every absent optional scalar explicitly with its zero value
 // ("user":"", "uid":0, "open":false, "timestamp":"0001-01-01T00:00:00Z", ...): present-but-zero has to
